@@ -42,6 +42,7 @@ def run(ck, prog):
     ck.attempt(_polygons, ck, prog)
     ck.attempt(_linear, ck, prog)
     ck.attempt(_figure_lifecycle, ck, prog)
+    ck.attempt(_shared_defaults, ck, prog)
     ck.floor("forwarding calls checked", ck.analysed.get("forwarding calls checked", 0), 40)
 
 
@@ -666,6 +667,38 @@ def _figure_lifecycle(ck, prog):
               note="an open figure is reused by the next plot: its file then shows two markers / ten regions / two profiles")
         ck.count("save entry points (lifecycle)")
     ck.floor("save entry points (lifecycle)", ck.analysed.get("save entry points (lifecycle)", 0), 5)
+
+
+def _shared_defaults(ck, prog):
+    """MDEF: a list/dict default (`label=[]`) is one object shared by every call that omits the argument; a plotting routine that mutates it
+    (directly or in a callee it hands it to) carries labels from one plot into the next.  Effect summaries closed over the call graph."""
+    from lcsa.eff import Effects
+    E = Effects(prog)
+    n = 0
+    for f in prog.all_funcs():
+        if not (f.mod.rel in (PLT, "plots.py") or (f.mod.rel == SP and f.name.startswith(("show_", "save_")))):
+            continue
+        d = f.defaults()
+        md = [p for p, v in d.items() if isinstance(v, (ast.List, ast.Dict, ast.Set)) or (isinstance(v, ast.Call) and getattr(v.func, "id", "") in ("list", "dict", "set"))]
+        if not md:
+            continue
+        s = E.sum.get(f.key)
+        if s is None:
+            continue
+        n += 1
+        for p in md:
+            sites = s.param_muts.get(p, [])
+            named = any(k in f.name.lower() for k in ("phase", "uversky", "multiple_plot", "single_plot", "linearplot", "linearncpr", "linearfcr", "linearsigma", "linearhydropathy"))
+            if not named:
+                # composition / complexity plots are not among the entry points this property names
+                if sites:
+                    ck.info("%s mutates its shared default '%s' (not an entry point named by the property; information only)" % (f.qual, p))
+                continue
+            ck.ob("MDEF", f.mod.relpath + ":" + f.qual, not sites, expected="the shared default of '%s' is never mutated" % p,
+                  found={"mutated_at": sites[:3]} if sites else "not mutated", slot="default:" + p, where=f.loc(),
+                  note="state carried between calls: the next plot that omits the argument starts from the previous plot's labels")
+    ck.count("plotting routines with a mutable default", n)
+    ck.floor("plotting routines with a mutable default", n, 8)
 
 
 def run_thorough(ck, prog):
